@@ -1159,12 +1159,15 @@ func (fe *FnEnc) useContractFn(ct *Contract, callee *ssa.Function, args []Val, r
 	}
 	ev2 := fe.newEval(fe.mem, pre, env)
 	ev2.calleePkg = ct.PkgPath
-	for _, e := range ct.Ensures {
+	for _, e := range append(append([]Clause{}, ct.Ensures...), ct.Names...) {
 		t := ev2.evalAssume(e.E)
 		if len(weakPre) > 0 {
 			t = implies(and(weakPre...), t)
 		}
 		s.assert(implies(fe.guard, t))
+	}
+	if len(ct.Names) > 0 {
+		fe.top.havocked["assumed: the verdict of "+ct.Name+" is a function of the inputs named in its contract (names clause)"] = true
 	}
 	fe.afterCall(ct.Name, res, pos)
 	if ct.Trusted {
